@@ -36,8 +36,8 @@ def run(prog, rep):
     rep.rule("C03.interval-lengths", "interval lengths = documented formula for all real time items")
     rep.rule("C03.balance-identity", "stock(t) - stock(t-1) = dt(t) * (inflow(t) - outflow(t)) exactly, at every index, for every stock class / solver")
     rep.rule("C03.self-check-accepts", "get_stock_balance() of a freshly computed stock is identically zero")
-    for c, m in (("Stock", "_to_whole_period"), ("Stock", "get_stock_balance"), ("SimpleFlowDrivenStock", "compute"), ("InflowDrivenDSM", "compute"),
-                 ("StockDrivenDSM", "compute"), ("UnevenTimeDim", "compute_t_bounds")):
+    for c, m in (("Stock", "get_stock_balance"), ("SimpleFlowDrivenStock", "compute"), ("InflowDrivenDSM", "compute"),
+                 ("StockDrivenDSM", "compute")):
         prog.method(c, m)
     run_stock_property(prog, rep, "C03", jobs_for(rep.tier),
                        {"dt-formula": "C03.interval-lengths", "balance": "C03.balance-identity", "self-check": "C03.self-check-accepts"})
